@@ -79,7 +79,7 @@ def gen_model(rng):
         # targets on a coarse grid make exact ties common (that is what the adversary needs)
         target = rng.choice([0, 0.5, 1, 1, 1.5, 2, 2, 2.5, 3]) if rng.random() < 0.8 else round(rng.uniform(0, 3), 2)
         errs.append({"name": f"E_{i}" if rng.random() < 0.8 else "E_pce", "coefs": coefs, "target": target,
-                     "w": rng.choice([1, 1, 1, 2, 0.5])})
+                     "w": rng.choice([1, 1, 1, 2, 0.5, 0])})  # a weight of 0 is a legal weight (cn_pce_penalty=0)
     card = []
     for _ in range(rng.randint(0, 2)):
         k = rng.randint(2, nb)
